@@ -294,6 +294,10 @@ impl World for SighashWorld {
     fn execute(&self, case: &Case, ctx: &mut Ctx) {
         let mut tx = gen::tx(&case.tx);
         let mut shadow = tx.clone();
+        // the transaction before any script witness was filled in: no digest commits to script witnesses, so a fresh cache
+        // over it must give the same answers too ("...including after script witnesses have been filled in")
+        let original = tx.clone();
+        let mut pushed = false;
         let prevouts = gen::prevouts(case.prevout_seed, tx.input.len(), case.tx.confidential);
         let genesis = BlockHash::from_byte_array(Prng::from_u64(case.prevout_seed ^ 0x6e).arr32());
         let env = Env { prevouts: &prevouts, genesis };
@@ -320,6 +324,7 @@ impl World for SighashWorld {
                         let expect = *idx < shadow.input.len();
                         if expect {
                             shadow.input[*idx].witness.script_witness.push(data);
+                            pushed = true;
                         }
                         match got {
                             Ok(g) => {
@@ -397,6 +402,13 @@ impl World for SighashWorld {
                         match &reference {
                             Outcome::Err(e) => ctx.probe(&format!("err.{}", e.split(|c: char| !c.is_alphanumeric()).next().unwrap_or("?"))),
                             _ => {}
+                        }
+                        if pushed {
+                            let before = {
+                                let mut fresh = SighashCache::new(&original);
+                                run_query(&mut fresh, q, &env, None, encode_form, None)
+                            };
+                            ctx.check(before == reference, "C13.witness.independent", &kname, || format!("step {}: {:?}: a fresh cache over the transaction WITH the script witnesses pushed so far gives {}, over the transaction without them {}", step, q, short(&reference), short(&before)));
                         }
                         // ---- second sentence of the property: One vs All
                         if kind_bit == 4 && q.idx < shadow.input.len() && matches!(q.prevouts, PrevoutForm::One | PrevoutForm::All) && !faulty {
